@@ -409,15 +409,19 @@ theorem binomial_flip (fuel ifuel n : Nat) (p : ℝ) (g : Rng) (hn : 0 < n) (h2 
   norm_num [h2]
   cases h : (if (1 - p) * (n : ℝ) ≤ 30 then Binomial.inversion fuel n (1 - p) g else Binomial.btpe fuel ifuel n (1 - p) g) <;> simp
 
-/-- **Gamma boost (repair F20).** Below shape 1 the sampler draws one uniform `U` and returns `U^{1/α}` times what the
-Marsaglia–Tsang loop returns for shape `α + 1` from the state after that draw. -/
+/-- **Gamma boost (repairs F20, F54).** Below shape 1 the sampler takes the first non-zero uniform `U` of the stream (redraw
+loop) and returns `U^{1/α}` times what the Marsaglia–Tsang loop returns for shape `α + 1` from the state after that draw. -/
 theorem gamma_boost (fuel : Nat) (a b : ℝ) (ha0 : 0 ≤ a) (ha : a < 1) (g : Rng) :
     Gamma.sample fuel a b g =
-      (Gamma.sample fuel (a + 1) b (g.f64 (α := ℝ)).2).map
-        (fun r => ((g.f64 (α := ℝ)).1 ^ (1 / a) * r.1, r.2)) := by
+      (redrawNonzero (UniformF.sample (0 : ℝ) 1) fuel g).bind fun r =>
+        (Gamma.sample fuel (a + 1) b r.2).map fun y => (r.1 ^ (1 / a) * y.1, y.2) := by
   have h2 : ¬ (a + 1 < 1) := by linarith
-  simp only [Gamma.sample, Gamma.prepare, ha, h2, if_true, if_false, uniformF_unit, Transc.pow]
-  exact gamma_loop_boost fuel _ _ b fuel _
+  simp only [Gamma.sample, Gamma.prepare, ha, h2, if_true, if_false, Transc.pow]
+  cases hr : redrawNonzero (UniformF.sample (0 : ℝ) 1) fuel g with
+  | none => rfl
+  | some r =>
+    simp only [Option.map_some, Option.bind_some]
+    exact gamma_loop_boost fuel _ _ b fuel _
 
 /-- From shape 1 on there is no boost and no extra draw. -/
 theorem gamma_no_boost (fuel : Nat) (a b : ℝ) (ha : 1 ≤ a) (g : Rng) :
@@ -438,39 +442,43 @@ theorem gamma_support_ge_one (fuel : Nat) (a b : ℝ) (ha : 1 ≤ a) (hb : 0 < b
   rw [gamma_no_boost fuel a b ha] at h
   exact gamma_loop_pos fuel 1 _ b one_pos (by linarith) hb fuel g g' x h
 
-/-- **Gamma support.** For `0 < shape < 1` every returned draw is `≥ 0`, and `> 0` when the boosting uniform is not `0`. -/
+/-- **Gamma support below shape 1** (after F54): every returned draw is `> 0` — the boosting uniform is the first non-zero
+one, hence in `(0, 1)`. -/
 theorem gamma_support_lt_one (fuel : Nat) (a b : ℝ) (ha0 : 0 < a) (ha : a < 1) (hb : 0 < b) (g g' : Rng) (x : ℝ)
-    (h : Gamma.sample fuel a b g = some (x, g')) :
-    0 ≤ x ∧ (0 < (g.f64 (α := ℝ)).1 → 0 < x) := by
+    (h : Gamma.sample fuel a b g = some (x, g')) : 0 < x := by
   rw [gamma_boost fuel a b ha0.le ha] at h
-  cases hs : Gamma.sample fuel (a + 1) b (g.f64 (α := ℝ)).2 with
-  | none => simp [hs] at h
+  cases hr : redrawNonzero (UniformF.sample (0 : ℝ) 1) fuel g with
+  | none => simp [hr] at h
   | some r =>
-    obtain ⟨y, g1⟩ := r
-    simp [hs] at h
-    have hy : 0 < y := gamma_support_ge_one fuel (a + 1) b (by linarith) hb _ g1 y hs
-    obtain ⟨hx, _⟩ := h
-    subst hx
-    have hu := (f64_mem g).1
-    constructor
-    · exact mul_nonneg (Real.rpow_nonneg hu _) hy.le
-    · intro hpos; exact mul_pos (Real.rpow_pos_of_pos hpos _) hy
+    obtain ⟨u, g1⟩ := r
+    obtain ⟨k, _, hfn, hu, _⟩ := redraw_unit_spec fuel g g1 u hr
+    have hupos : 0 < u := by rw [hu]; exact (firstNonzero_pos hfn).1
+    simp only [hr, Option.bind_some] at h
+    cases hs : Gamma.sample fuel (a + 1) b g1 with
+    | none => simp [hs] at h
+    | some y =>
+      obtain ⟨y, g2⟩ := y
+      simp [hs] at h
+      have hy : 0 < y := gamma_support_ge_one fuel (a + 1) b (by linarith) hb _ g2 y hs
+      rw [← h.1]
+      exact mul_pos (Real.rpow_pos_of_pos hupos _) hy
 
-/-- **Gamma support**, every valid shape and rate: returned draws are `≥ 0`. -/
-theorem gamma_support_nonneg (fuel : Nat) (a b : ℝ) (ha : 0 < a) (hb : 0 < b) (g g' : Rng) (x : ℝ)
-    (h : Gamma.sample fuel a b g = some (x, g')) : 0 ≤ x := by
+/-- **Gamma support**, every valid shape and rate: returned draws are `> 0`. -/
+theorem gamma_support_pos (fuel : Nat) (a b : ℝ) (ha : 0 < a) (hb : 0 < b) (g g' : Rng) (x : ℝ)
+    (h : Gamma.sample fuel a b g = some (x, g')) : 0 < x := by
   by_cases h1 : a < 1
-  · exact (gamma_support_lt_one fuel a b ha h1 hb g g' x h).1
-  · exact (gamma_support_ge_one fuel a b (not_lt.mp h1) hb g g' x h).le
+  · exact gamma_support_lt_one fuel a b ha h1 hb g g' x h
+  · exact gamma_support_ge_one fuel a b (not_lt.mp h1) hb g g' x h
 
-/-- Chi-squared draws are `≥ 0`. -/
+theorem gamma_support_nonneg (fuel : Nat) (a b : ℝ) (ha : 0 < a) (hb : 0 < b) (g g' : Rng) (x : ℝ)
+    (h : Gamma.sample fuel a b g = some (x, g')) : 0 ≤ x := (gamma_support_pos fuel a b ha hb g g' x h).le
+
+/-- Chi-squared draws are `> 0` (every `dof ≥ 1`, every returning call; after F54 also at the zero-uniform states). -/
 theorem chi_squared_support (fuel k : Nat) (hk : 0 < k) (g g' : Rng) (x : ℝ)
-    (h : ChiSquared.sample (α := ℝ) fuel k g = some (x, g')) : 0 ≤ x := by
+    (h : ChiSquared.sample (α := ℝ) fuel k g = some (x, g')) : 0 < x := by
   rw [chi_squared_is_gamma] at h
   have hk' : (0 : ℝ) < (k : ℝ) / 2 := by positivity
-  by_cases h1 : (k : ℝ) / 2 < 1
-  · exact (gamma_support_lt_one fuel _ _ hk' h1 (by norm_num) g g' x h).1
-  · exact (gamma_support_ge_one fuel _ _ (not_lt.mp h1) (by norm_num) g g' x h).le
+  exact gamma_support_pos fuel _ _ hk' (by norm_num) g g' x h
 
 /-- **Beta support**: every returned draw lies in `[0, 1]` (valid shapes). -/
 theorem beta_sample_support (fuel : Nat) (a b : ℝ) (ha : 0 < a) (hb : 0 < b) (g g' : Rng) (v : ℝ)
@@ -685,10 +693,14 @@ example : (9 : ℝ) * ((1 / 5 : ℝ) - 1 / 3) < 0 := legacy_gamma_sqrt_domain _ 
 
 /-- Repaired code: the shape used by the loop is `≥ 1` for every valid shape, so the argument of the square root is
 positive (`≥ 6`). -/
-theorem gamma_sqrt_domain (a : ℝ) (ha : 0 < a) (g : Rng) :
-    6 ≤ 9 * ((Gamma.prepare a g).1 - 1 / 3) := by
-  unfold Gamma.prepare
-  split_ifs with h <;> simp <;> linarith
+theorem gamma_sqrt_domain (fuel : Nat) (a : ℝ) (ha : 0 < a) (g : Rng) (r : ℝ × ℝ × Rng)
+    (h : Gamma.prepare fuel a g = some r) : 6 ≤ 9 * (r.1 - 1 / 3) := by
+  unfold Gamma.prepare at h
+  split_ifs at h with h1
+  · cases hr : redrawNonzero (UniformF.sample (0 : ℝ) 1) fuel g with
+    | none => simp [hr] at h
+    | some q => simp [hr] at h; rw [← h]; simp; linarith
+  · simp at h; rw [← h]; simp; linarith
 
 /-! ### 4c. Bulk sampling -/
 
